@@ -101,6 +101,11 @@ SCRIPTS['C02'] = [
        seed=[U('u1', 1, sms=1, rc=True), U('u2', 2, sms=2)]),
 ]
 SCRIPTS['C12'] = SCRIPTS['C02'][:2] + [
+    sc('totp-replay-spellings', ['auth', 'totp', 'logout'],
+       [login('u1', 1), ev('TotpValidate', tok=1, code=1), login('u1', 1, b='b2'), ev('TotpValidate', 'b2', tok=1, code=1),
+        ev('TotpValidate', 'b2', tok=1, code=1, junk='space'), ev('TotpValidate', 'b2', tok=1, code=3),
+        login('u1', 1, b='b1'), ev('TotpValidate', 'b1', tok=1, code=3, junk='space')],
+       seed=[U('u1', 1, totp=True, rc=True), U('u2', 2)], totpOneTime=True),
     sc('otp-replay', ['auth', 'otp', 'totp', 'logout'],
        [ev('OtpLoginPost', pid='u2', tok=2), ev('OtpLoginPost', 'b2', pid='u2', tok=2), ev('OtpLoginPost', 'b2', pid='u2', tok=3),
         ev('OtpLoginPost', pid='u1', tok=1), ev('TotpValidate', tok=1, code=1), ev('OtpLoginPost', 'b2', pid='u1', tok=1)],
